@@ -6,6 +6,8 @@ failure) plus a cell-tracking focus rule (see DESIGN.md C16).
 from __future__ import annotations
 
 import itertools
+import json
+import warnings
 
 from hypothesis import strategies as st
 
@@ -19,17 +21,32 @@ RULE = (
     "single: exhaustive enumeration of (list size 0..5 [6 thorough], every initial focus, every single "
     "list operation with every argument: item get/set/del with index -7..7, slice set/del with a,b in "
     "-7..7|None and step in None,1,2,3,-1,-2 and 0..3 new items, insert, append, extend, pop, remove, "
-    "reverse, sort, +=, *= n in -1..3, clear) on MonitoredFocusList, compared with a built-in list and "
-    "the cell-tracking focus rule; seq: Hypothesis op sequences (<=30 ops) on MonitoredList, "
-    "MonitoredFocusList, SimpleListWalker, SimpleFocusListWalker and Pile.contents. Non-trivial: the "
+    "reverse, sort with every keyword combination (reverse absent/False/True x key absent or value % m, "
+    "m in 1..3, so that items tie under the key), +=, *= n in -1..3, clear) on MonitoredFocusList, compared "
+    "with a built-in list and the cell-tracking focus rule; the same op kinds on long lists (300 and 1025 "
+    "items [and 4099 thorough]) with the focus at both ends, next to them and in the middle and every "
+    "argument taken from the landmark positions (ends, one past the ends, focus-1..focus+1; non-negative and "
+    "negative spelling); seq: Hypothesis op sequences (<=30 ops; <=12 on long lists of 70..1100 items, one "
+    "case in eight) on MonitoredList, MonitoredFocusList, SimpleListWalker, SimpleFocusListWalker and the "
+    "contents of a Pile, a Columns and a GridFlow; index arguments are plain ints or relative to the state "
+    "at the time of the call (focus+d, its negative spelling, middle+d, len+d); a container is built with "
+    "the initial focus given to its constructor (absent, any index in or out of range, a child widget, a "
+    "foreign widget: a constructor that returns must leave a list satisfying the focus invariant) and its "
+    "focus is moved as contents.focus = i, focus_position = i or the legacy set_focus(i). Every case is "
+    "passed through JSON before use, so generated and replayed cases are the same values. Non-trivial: the "
     "operation's slice touches the focus cell, has a non-unit or negative step, or is empty/reversed "
     "(single); a sequence with >=3 content-changing ops of which one is a slice op (seq)."
 )
 ASSUMPTIONS = [
-    "CPython's built-in list is the reference for contents and exception types",
+    "CPython's built-in list is the reference for contents and exception types (list.sort is stable, also "
+    "with reverse=True, so the model fixes the place of every item that ties under the key)",
     "new items are passed as list/tuple (the type hints say Collection); iterators are not generated",
-    "items are identity-distinct objects with distinct sort keys, so 'same item' is unambiguous except "
+    "items are identity-distinct objects with distinct sort values, so 'same item' is unambiguous except "
     "after *= n (duplicates), where sort() may pick any index holding the identical object",
+    "container children are Text widgets with default options; a container constructor may reject an initial "
+    "focus that designates no child (IndexError / ValueError), nothing is asserted then",
+    "container focus spellings: contents.focus = i is ignored on an empty list (documented); focus_position = i "
+    "and set_focus(i) raise IndexError for every invalid index (documented)",
 ]
 
 
@@ -48,6 +65,13 @@ class Item:
 
 # ---------------------------------------------------------------------------------------------
 # applying one op to a target list-like object
+
+
+def _sort_value(x):
+    """integer sort value of an item: Item.v, or the number shown by a container child (widget, options)"""
+    if isinstance(x, Item):
+        return x.v
+    return int(x[0].text)
 
 
 def apply_op(lst, op, new_item):
@@ -86,7 +110,15 @@ def apply_op(lst, op, new_item):
     elif kind == "reverse":
         lst.reverse()
     elif kind == "sort":
-        lst.sort(reverse=bool(op[1]))
+        # ["sort", reverse] or ["sort", reverse, keymod]: keymod None -> no key=, else key = value % keymod
+        # (items that tie under the key; list.sort is stable, also with reverse=True)
+        keymod = op[2] if len(op) > 2 else None
+        if keymod is None:
+            lst.sort(reverse=bool(op[1]))
+        elif op[1] is None:
+            lst.sort(key=lambda x: _sort_value(x) % keymod)
+        else:
+            lst.sort(key=lambda x: _sort_value(x) % keymod, reverse=bool(op[1]))
     elif kind == "clear":
         lst.clear()
     elif kind == "setfocus":
@@ -196,6 +228,7 @@ def is_nontrivial_single(case):
 
 def check_single(case):
     """case: {"n": size, "focus": index|None, "op": [...]}"""
+    case = json.loads(json.dumps(case))  # generated and replayed cases are the same objects: plain JSON values
     n, fi, op = case["n"], case["focus"], case["op"]
     items = [Item(i) for i in range(n)]
     fresh = {}
@@ -211,12 +244,33 @@ def check_single(case):
     _compare_step(real, model, op, new_item, log, focus_rule=True, fi_before=real.focus)
 
 
-def _compare_step(real, model, op, new_item, log, focus_rule, fi_before, has_focus_cb=True):
+class _Short:
+    """a list shown in full when short, abbreviated when long (messages only)"""
+
+    def __init__(self, lst):
+        self.lst = lst
+
+    def __repr__(self):
+        lst = self.lst
+        if len(lst) <= 16:
+            return repr(lst)
+        return f"[{', '.join(map(repr, lst[:4]))}, ... {len(lst)} items ..., {', '.join(map(repr, lst[-3:]))}]"
+
+    __str__ = __repr__
+
+
+def _compare_step(real, model, op, new_item, log, focus_rule, fi_before, has_focus_cb=True, real_apply=None):
+    """One op on the model and on the real list, then every clause of the property.
+    real_apply(op, new_item): alternative way to perform the op on the real object (container spellings)."""
     old = list(model)
     exc_m = exc_r = None
     ret_m = ret_r = None
     if op[0] == "setfocus":
-        exc_m = None if (isinstance(op[1], int) and 0 <= op[1] < len(model)) or not model else IndexError
+        # spelling 0: list.focus = i (ignored on an empty list, documented); spellings 1, 2: the container's
+        # focus_position = i / set_focus(i), documented to raise IndexError for every invalid index
+        via_container = len(op) > 2 and op[2]
+        in_range = isinstance(op[1], int) and 0 <= op[1] < len(model)
+        exc_m = None if in_range or (not model and not via_container) else IndexError
         ret_m = None
     else:
         try:
@@ -225,7 +279,7 @@ def _compare_step(real, model, op, new_item, log, focus_rule, fi_before, has_foc
             exc_m = type(e)
     del log[:]
     try:
-        ret_r = apply_op(real, op, new_item)
+        ret_r = real_apply(op, new_item) if real_apply is not None else apply_op(real, op, new_item)
     except Exception as e:  # noqa: BLE001
         exc_r = type(e)
         exc_r_obj = e
@@ -235,7 +289,7 @@ def _compare_step(real, model, op, new_item, log, focus_rule, fi_before, has_foc
         raise Violation("same-errors", f"{op}: list raised {exc_m}, monitored list raised {exc_r}")
     cur = list.__getitem__(real, slice(None))
     if len(cur) != len(model) or any(a is not b for a, b in zip(cur, model)):
-        raise Violation("same-contents", f"{op} on {old}: list gives {model}, monitored list holds {cur}")
+        raise Violation("same-contents", f"{op} on {_Short(old)}: list gives {_Short(model)}, monitored list holds {_Short(cur)}")
     if ret_m is not ret_r:
         raise Violation("same-result", f"{op}: list returned {ret_m}, monitored list {ret_r}")
     mods = [e for e in log if e[0] == "modified"]
@@ -256,7 +310,7 @@ def _compare_step(real, model, op, new_item, log, focus_rule, fi_before, has_foc
             raise Violation("focus-none-iff-empty", f"empty list reports focus {f}")
     else:
         if not isinstance(f, int) or not 0 <= f < len(model):
-            raise Violation("focus-in-range", f"{op} on {old} focus {fi_before}: focus now {f!r}, len {len(model)}")
+            raise Violation("focus-in-range", f"{op} on {_Short(old)} focus {fi_before}: focus now {f!r}, len {len(model)}")
     if exc_m is None:
         if op[0] == "setfocus":
             exp = {op[1]} if model else {None}
@@ -265,7 +319,7 @@ def _compare_step(real, model, op, new_item, log, focus_rule, fi_before, has_foc
         if f not in exp:
             raise Violation(
                 "focus-follows-item",
-                f"{op} on {old} with focus {fi_before}: expected focus {sorted(exp, key=repr)}, got {f}; now {model}",
+                f"{op} on {_Short(old)} with focus {fi_before}: expected focus {sorted(exp, key=repr)}, got {f}; now {_Short(model)}",
             )
     else:
         if f != fi_before:
@@ -276,7 +330,7 @@ def _compare_step(real, model, op, new_item, log, focus_rule, fi_before, has_foc
             if (fi_before != f) != bool(fc):
                 raise Violation(
                     "focus-changed-callback",
-                    f"{op} on {old}: focus {fi_before} -> {f} but focus_changed fired {fc}",
+                    f"{op} on {_Short(old)}: focus {fi_before} -> {f} but focus_changed fired {fc}",
                 )
             if fc and fc[-1] != f:
                 raise Violation("focus-changed-callback", f"{op}: callback got {fc}, focus is {f}")
@@ -301,12 +355,50 @@ def _mk_target(cls, n):
     return real, items
 
 
+CONTAINERS = ("PILE", "COLS", "GRID")
+
+
+def _resolve_index(x, n, focus):
+    """An index argument is an int or a state-relative [anchor, d]: "f" focus+d, "nf" the negative spelling of
+    focus+d, "m" middle+d, "e" len+d (so ["e", -1] is the last item, ["e", 0] one past it)."""
+    if not isinstance(x, list):
+        return x
+    anchor, d = x
+    base = focus if isinstance(focus, int) else n // 3
+    if anchor == "f":
+        return base + d
+    if anchor == "nf":
+        return base + d - n
+    if anchor == "m":
+        return n // 2 + d
+    if anchor == "e":
+        return n + d
+    raise AssertionError(x)
+
+
+_INDEX_ARGS = {"get": (1,), "set": (1,), "del": (1,), "insert": (1,), "pop": (1,), "setfocus": (1,),
+               "remove": (1,), "setslice": (1, 2), "delslice": (1, 2)}
+
+
+def resolve_op(op, n, focus):
+    """Replace state-relative index arguments by plain ints (computed now, from the current state)."""
+    pos = _INDEX_ARGS.get(op[0], ())
+    if not any(isinstance(op[i], list) for i in pos if i < len(op)):
+        return op
+    op = list(op)
+    for i in pos:
+        if i < len(op):
+            op[i] = _resolve_index(op[i], n, focus)
+    return op
+
+
 def check_seq(case):
-    """case: {"cls":..., "n":..., "focus":..., "ops":[...]}"""
+    """case: {"cls":..., "n":..., "focus":..., "ops":[...]} (+ "ctor_focus" for the container classes)"""
+    case = json.loads(json.dumps(case))  # generated and replayed cases are the same objects: plain JSON values
     cls, n, ops = case["cls"], case["n"], case["ops"]
     counter = itertools.count(100)
-    if cls == "PILE":
-        return _check_seq_pile(case)
+    if cls in CONTAINERS:
+        return _check_seq_container(case)
     real, items = _mk_target(cls, n)
     model = list(items)
     log = []
@@ -318,13 +410,14 @@ def check_seq(case):
     if has_cb:
         real.set_focus_changed_callback(lambda f: log.append(("focus", f)))
     focus_rule = cls in ("MFL", "SFLW")
-    if focus_rule and n and case.get("focus") is not None:
-        real.focus = case["focus"] % n
+    if focus_rule and _initial_focus(case) is not None:
+        real.focus = _initial_focus(case)
     for op in ops:
         if op[0] == "setfocus" and not focus_rule:
             continue
-        if op[0] == "setfocus" and cls == "SFLW":
-            pass
+        if op[0] == "setfocus":
+            op = op[:2]  # the container spellings do not exist here
+        op = resolve_op(op, len(model), real.focus if cls != "ML" else None)
         fresh = {}
         base = next(counter) * 10
 
@@ -338,39 +431,92 @@ def check_seq(case):
                 raise Violation("focus-in-range", f"SimpleListWalker focus {f!r} with {len(model)} items after {op}")
 
 
-def _check_seq_pile(case):
-    n, ops = case["n"], case["ops"]
+def _mk_container(cls, widgets, ctor_focus):
+    """Build the container with the initial focus spelled through its constructor: None, an index (any int) or
+    ["w", i] the i-th child widget / ["w", None] a widget that is not a child."""
+    if isinstance(ctor_focus, list):
+        i = ctor_focus[1]
+        arg = urwid.Text("foreign") if i is None or not widgets else widgets[i % len(widgets)]
+    else:
+        arg = ctor_focus
+    if cls == "PILE":
+        return urwid.Pile(widgets, focus_item=arg)
+    if cls == "COLS":
+        return urwid.Columns(widgets, focus_column=arg)
+    if cls == "GRID":
+        return urwid.GridFlow(widgets, 6, 1, 0, "left", focus=arg)
+    raise AssertionError(cls)
+
+
+def _check_seq_container(case):
+    cls, n, ops = case["cls"], case["n"], case["ops"]
     widgets = [urwid.Text(str(i)) for i in range(n)]
-    pile = urwid.Pile(widgets)
-    real = pile.contents
+    arg = _ctor_focus_arg(case)
+    try:
+        cont = _mk_container(cls, widgets, arg)
+    except (IndexError, ValueError):
+        # the constructor may refuse an initial focus that designates no child; then there is no list to check
+        if arg is None or (isinstance(arg, int) and 0 <= arg < n) or (isinstance(arg, list) and arg[1] is not None and n):
+            raise  # a valid initial focus (or none) must be accepted
+        return
+    real = cont.contents
     model = list(real)
     counter = itertools.count(100)
-    if n and case.get("focus") is not None:
-        pile.focus_position = case["focus"] % n
+    # the invariant holds from the start, whatever initial focus the constructor was given
+    f = real.focus
+    if not model:
+        if f is not None:
+            raise Violation("focus-none-iff-empty", f"new empty {cls} contents report focus {f!r}")
+    elif not isinstance(f, int) or not 0 <= f < len(model):
+        raise Violation(
+            "focus-in-range",
+            f"{cls} built with {n} children and initial focus {arg!r}: contents.focus is {f!r}",
+        )
+    if _initial_focus(case) is not None:
+        cont.focus_position = _initial_focus(case)
     log = []
-    orig_modified = real._modified  # Pile's own callback: keep it, and log the call
+    orig_modified = real._modified  # the container's own callbacks: keep them, and log the calls
+    orig_focus_changed = real._focus_changed
 
     def modified():
         log.append(("modified", None))
         orig_modified()
 
+    def focus_changed(f):
+        log.append(("focus", f))
+        orig_focus_changed(f)
+
     real.set_modified_callback(modified)
+    real.set_focus_changed_callback(focus_changed)
+
+    def real_apply(op, new_item):
+        if op[0] == "setfocus" and len(op) > 2 and op[2]:
+            if op[2] == 1:
+                cont.focus_position = op[1]
+            else:
+                with warnings.catch_warnings():
+                    warnings.simplefilter("ignore", DeprecationWarning)
+                    cont.set_focus(op[1])  # legacy spelling, still supported (deprecation shim)
+            return None
+        return apply_op(real, op, new_item)
+
     for op in ops:
-        if op[0] in ("sort", "setfocus", "imul"):
-            continue
+        if op[0] == "imul" or (op[0] == "sort" and (len(op) < 3 or op[2] is None)):
+            continue  # (widget, options) tuples have no order of their own: sort needs key=
+        op = resolve_op(op, len(model), real.focus)
         fresh = {}
         base = next(counter) * 10
 
         def new_item(k, fresh=fresh, base=base):
-            return fresh.setdefault(k, (urwid.Text(str(base + k)), pile.options()))
+            return fresh.setdefault(k, (urwid.Text(str(base + k)), cont.options()))
 
-        _compare_step(real, model, op, new_item, log, True, real.focus, has_focus_cb=False)
+        _compare_step(real, model, op, new_item, log, True, real.focus, has_focus_cb=True, real_apply=real_apply)
         # container view of the same fact
         if model:
-            if pile.focus is not model[real.focus][0]:
-                raise Violation("focus-is-child", f"Pile.focus is not contents[focus_position][0] after {op}")
-        elif pile.focus is not None:
-            raise Violation("focus-none-iff-empty", "empty Pile reports a focus widget")
+            if cont.focus is not model[real.focus][0]:
+                raise Violation("focus-is-child", f"{cls}.focus is not contents[focus_position][0] after {op}")
+        elif cont.focus is not None:
+            raise Violation("focus-none-iff-empty", f"empty {cls} reports a focus widget")
 
 
 SUBS = {"single": check_single, "seq": check_seq}
@@ -401,8 +547,11 @@ def single_ops():
         yield ["imul", k]
     yield ["append"]
     yield ["reverse"]
-    yield ["sort", 0]
-    yield ["sort", 1]
+    for rev in (None, 0, 1):  # None: reverse= not passed
+        for keymod in (None, 1, 2, 3):  # None: key= not passed; else key = value % keymod (ties)
+            if rev is None and keymod is None:
+                continue  # same call as ["sort", 0, None]
+            yield ["sort", rev, keymod]
     yield ["clear"]
     for a in IDX:
         for b in IDX:
@@ -420,35 +569,119 @@ def single_cases(max_n):
                 yield {"n": n, "focus": fi, "op": op}
 
 
-_idx = st.one_of(st.none(), st.integers(-9, 9))
-_step = st.sampled_from([None, 1, 1, 2, 3, -1, -2, -3])
-_op = st.one_of(
-    st.tuples(st.just("get"), st.integers(-9, 9)),
-    st.tuples(st.just("set"), st.integers(-9, 9)),
-    st.tuples(st.just("del"), st.integers(-9, 9)),
-    st.tuples(st.just("insert"), st.integers(-9, 9)),
-    st.tuples(st.just("pop"), _idx),
-    st.tuples(st.just("setfocus"), st.integers(-2, 9)),
-    st.tuples(st.just("remove"), st.one_of(st.none(), st.integers(0, 9))),
-    st.tuples(st.just("extend"), st.integers(0, 3)),
-    st.tuples(st.just("iadd"), st.integers(0, 3)),
-    st.tuples(st.just("imul"), st.integers(-1, 3)),
-    st.tuples(st.just("append")),
-    st.tuples(st.just("reverse")),
-    st.tuples(st.just("sort"), st.integers(0, 1)),
-    st.tuples(st.just("clear")),
-    st.tuples(st.just("delslice"), _idx, _idx, _step),
-    st.tuples(st.just("setslice"), _idx, _idx, _step, st.integers(0, 4)),
-).map(list)
+def big_single_cases(sizes):
+    """Long lists (far beyond the exhaustive bound): every op kind with every argument taken from the
+    landmark positions of the list - both ends, one past the ends, around the focus - in the
+    non-negative and the negative spelling, for the focus at both ends, next to them and in the middle."""
+    for n in sizes:
+        for fi in sorted({0, 1, n // 2, n - 2, n - 1}):
+            pos = sorted(x for x in {0, 1, fi - 1, fi, fi + 1, n - 2, n - 1, n, n + 3} if x >= 0)
+            neg = sorted({-1, -2, fi - n, fi - n - 1, -n, -n - 1, -n - 3})
+            marks = pos + neg
+            ops = []
+            for i in marks:
+                ops += [["get", i], ["set", i], ["del", i], ["insert", i], ["pop", i], ["setfocus", i]]
+            ops.append(["pop", None])
+            ops += [["remove", i] for i in [None, *(x for x in pos if x < n)]]
+            for k in range(0, 4):
+                ops += [["extend", k], ["iadd", k]]
+            ops += [["imul", k] for k in range(-1, 4)]
+            ops += [["append"], ["reverse"], ["clear"]]
+            ops += [["sort", rev, keymod] for rev in (None, 0, 1) for keymod in (None, 1, 2, 3, n // 2)
+                    if not (rev is None and keymod is None)]
+            for a in [None, *marks]:
+                for b in [None, *marks]:
+                    for c in STEPS:
+                        ops.append(["delslice", a, b, c])
+                        ops += [["setslice", a, b, c, k] for k in range(0, 4)]
+            for op in ops:
+                yield {"n": n, "focus": fi, "op": op}
 
-_seq_case = st.fixed_dictionaries(
+
+_rel = st.tuples(st.sampled_from(["f", "f", "nf", "m", "e"]), st.integers(-3, 3)).map(list)
+
+
+def _op_strategy(index):
+    """op lists; `index` is the strategy for index arguments"""
+    idx = st.one_of(st.none(), index)
+    step = st.sampled_from([None, 1, 1, 2, 3, -1, -2, -3])
+    return st.one_of(
+        st.tuples(st.just("get"), index),
+        st.tuples(st.just("set"), index),
+        st.tuples(st.just("del"), index),
+        st.tuples(st.just("insert"), index),
+        st.tuples(st.just("pop"), idx),
+        # third element: spelling on a container (0 contents.focus = i, 1 focus_position = i, 2 set_focus(i))
+        st.tuples(st.just("setfocus"), st.one_of(st.integers(-2, 9), index), st.sampled_from([0, 0, 1, 2])),
+        st.tuples(st.just("remove"), st.one_of(st.none(), st.integers(0, 9), index)),
+        st.tuples(st.just("extend"), st.integers(0, 3)),
+        st.tuples(st.just("iadd"), st.integers(0, 3)),
+        st.tuples(st.just("imul"), st.integers(-1, 3)),
+        st.tuples(st.just("append")),
+        st.tuples(st.just("reverse")),
+        # sort(reverse=, key=): reverse None = not passed; keymod None = no key, else key = value % keymod (ties)
+        st.tuples(st.just("sort"), st.sampled_from([None, 0, 1, 1]), st.sampled_from([None, None, 1, 2, 3, 5])),
+        st.tuples(st.just("clear")),
+        st.tuples(st.just("delslice"), idx, idx, step),
+        st.tuples(st.just("setslice"), idx, idx, step, st.integers(0, 4)),
+    ).map(list)
+
+
+_CLASSES = ["ML", "MFL", "MFL", "SLW", "SFLW", "SFLW", "PILE", "COLS", "GRID"]
+
+# the initial focus as a container's constructor takes it (ignored by the other classes): nothing, any index
+# (plain, or ["e", d] = number of children + d), ["w", i] the i-th child widget, ["w", None] a foreign widget
+_ctor_focus = st.one_of(
+    st.none(),
+    st.integers(-2, 10),
+    st.tuples(st.just("e"), st.integers(-3, 3)).map(list),
+    st.tuples(st.just("w"), st.one_of(st.none(), st.integers(0, 7))).map(list),
+)
+
+_seq_small = st.fixed_dictionaries(
     {
-        "cls": st.sampled_from(["ML", "MFL", "MFL", "SLW", "SFLW", "SFLW", "PILE"]),
+        "cls": st.sampled_from(_CLASSES),
         "n": st.integers(0, 7),
         "focus": st.one_of(st.none(), st.integers(0, 6)),
-        "ops": st.lists(_op, min_size=1, max_size=30),
+        "ctor_focus": _ctor_focus,
+        "ops": st.lists(
+            _op_strategy(st.one_of(st.integers(-9, 9), st.integers(-9, 9), st.integers(-9, 9), _rel)),
+            min_size=1,
+            max_size=30,
+        ),
     }
 )
+# long lists: indices mostly relative to the current state (focus, middle, end), few plain ones (the ends)
+_seq_long = st.fixed_dictionaries(
+    {
+        "cls": st.sampled_from(_CLASSES),
+        "n": st.sampled_from([70, 300, 520, 1100]),
+        "focus": st.one_of(st.none(), st.sampled_from([0, 1, -1, -2, ["m", 0], ["m", 1]])),
+        "ctor_focus": _ctor_focus,
+        "ops": st.lists(
+            _op_strategy(st.one_of(_rel, _rel, _rel, st.integers(-9, 9))),
+            min_size=1,
+            max_size=12,
+        ),
+    }
+)
+# one case in eight works on a long list
+_seq_case = st.integers(0, 7).flatmap(lambda k: _seq_long if k == 7 else _seq_small)
+
+
+def _initial_focus(case):
+    """the "focus" field of a seq case as an index (None: leave the constructor's choice)"""
+    n, f = case["n"], case.get("focus")
+    if f is None or not n:
+        return None
+    return _resolve_index(f, n, 0) % n
+
+
+def _ctor_focus_arg(case):
+    cf = case.get("ctor_focus")
+    if isinstance(cf, list) and cf[0] == "e":
+        return case["n"] + cf[1]
+    return cf
 
 
 def _seq_nontrivial(case):
@@ -462,6 +695,15 @@ def _seq_classes(case):
         out.append("seq:extended-slice")
     if any(o[0] == "imul" for o in case["ops"]):
         out.append("seq:imul")
+    if case["n"] > 7:
+        out.append("seq:long-list")
+    if any(o[0] == "sort" and len(o) > 2 and o[2] is not None for o in case["ops"]):
+        out.append("seq:sort-key-ties")
+    if any(isinstance(x, list) for o in case["ops"] for x in o[1:3]):
+        out.append("seq:state-relative-index")
+    cf = _ctor_focus_arg(case) if case["cls"] in CONTAINERS else None
+    if cf is not None:
+        out.append("seq:ctor-focus-" + ("widget" if isinstance(cf, list) else "index" if 0 <= cf < case["n"] else "index-out-of-range"))
     return out
 
 
@@ -481,10 +723,18 @@ def _single_classes(case):
     return out
 
 
+def _big_single_classes(case):
+    return [c.replace("single:", "single-long:") for c in _single_classes(case)]
+
+
 def shard(ctx):
     max_n = ctx.scale(5, 6)
     ctx.sweep("single", single_cases(max_n), nontrivial=is_nontrivial_single, classify=_single_classes,
               exhaustive_name=f"single ops, size<= {max_n}")
+    if ctx.failure is None:
+        sizes = ctx.scale((300, 1025), (300, 1025, 4099))
+        ctx.sweep("single", big_single_cases(sizes), nontrivial=is_nontrivial_single, classify=_big_single_classes,
+                  exhaustive_name=f"single ops at landmark positions, sizes {sizes}")
     if ctx.failure is None:
         ctx.given("seq", _seq_case, ctx.scale(1500, 20000), nontrivial=_seq_nontrivial, classify=_seq_classes)
 
